@@ -149,3 +149,82 @@ contract(G + '_write_function_common', params={'self': 'GIRWriter', 'func': 'Fun
              'C03.emit.function.property_accessors': "all_calls('_write_callable', 'attr_of(arg_extra_attrs, \\'glib:set-property\\') == func.set_property "
                                                      "and attr_of(arg_extra_attrs, \\'glib:get-property\\') == func.get_property')",
          })
+
+
+# =================================================================================================
+# C07 - read/write cycle: the reader recovers, for every attribute, a value from which the writer emits
+# the same attribute again (byte identity of the element's attribute list), parameter elements.
+# EMIT_* are the attribute values the writer emits (proved for _write_parameter below); the reader contract
+# assumes an element whose attributes are EMIT_*(p) for a ghost parameter p and proves EMIT_*(result) == EMIT_*(p).
+def EMIT_transfer(p):
+    return p.transfer if p.transfer else None
+
+
+def EMIT_direction(p):
+    return p.direction if p.direction is not None and p.direction != 'in' else None
+
+
+def EMIT_caller_allocates(p):
+    if p.direction is not None and p.direction != 'in':
+        return '1' if p.caller_allocates else '0'
+    return None
+
+
+def EMIT_nullable(p):
+    return '1' if p.nullable and not p.not_nullable else None
+
+
+def EMIT_allow_none(p):
+    if (p.nullable and not p.not_nullable and p.direction != 'out') or (p.optional and p.direction == 'out'):
+        return '1'
+    return None
+
+
+def EMIT_optional(p):
+    return '1' if p.optional else None
+
+
+def EMIT_scope(p):
+    return p.scope if p.scope else None
+
+
+def EMIT_skip(p):
+    return '1' if p.skip else None
+
+
+EMITS = {'name': 'parameter.argname', 'transfer-ownership': 'EMIT_transfer(parameter)', 'direction': 'EMIT_direction(parameter)',
+         'caller-allocates': 'EMIT_caller_allocates(parameter)', 'nullable': 'EMIT_nullable(parameter)',
+         'allow-none': 'EMIT_allow_none(parameter)', 'optional': 'EMIT_optional(parameter)', 'scope': 'EMIT_scope(parameter)',
+         'skip': 'EMIT_skip(parameter)'}
+for _k, _v in EMITS.items():
+    REGISTRY.get(G + '_write_parameter').ensures['C07.write.param.%s' % _k] = \
+        "all_calls('tagcontext', 'attr_of(arg_attributes, \\'%s\\') == %s')" % (_k, _v)
+
+import xml.etree.ElementTree as _ET   # noqa
+from . import c12_gdump   # noqa  (Element schema)
+from giscanner import girparser   # noqa
+from givc.model import schema as _schema   # noqa
+_schema(girparser.GIRParser, _types_only='bool', _namespace='Namespace?', _filename_stack='list')
+P = 'giscanner.girparser.GIRParser.'
+contract(P + '_parse_type', params={'self': 'GIRParser', 'node': 'Element'}, returns='Type', fresh_result=True, trusted=True,
+         raises={'AssertionError': 'maybe', 'KeyError': 'maybe', 'ValueError': 'maybe'},
+         ensures={'not_const': 'not result.is_const'},
+         note='type children: not yet under contract; types read from GIR are never const-qualified')
+contract(P + '_parse_generic_attribs', params={'self': 'GIRParser', 'node': 'Element', 'obj': 'Annotated'}, trusted=True,
+         modifies=['obj.skip', 'obj.introspectable', 'obj.doc', 'obj.doc_position', 'obj.version', 'obj.version_doc',
+                   'obj.deprecated', 'obj.deprecated_doc', 'obj.stability', 'obj.stability_doc', 'obj.attributes'],
+         raises={'KeyError': 'maybe', 'ValueError': 'maybe'},
+         ensures={'skip_set': "implies(node.attrib.get('skip') == '1', obj.skip == True)",
+                  'skip_kept': "implies(node.attrib.get('skip') is None, obj.skip == old(obj.skip))"},
+         note='generic attributes / documentation children: assumed (skip="1" -> skip)')
+
+ATTR = "node.attrib.get('%s') == %s"
+contract(P + '_parse_parameter', params={'self': 'GIRParser', 'node': 'Element'}, returns='Parameter',
+         ghost={'parameter': 'Parameter'}, props=('C07',),
+         requires=[ATTR % (k, v) for k, v in EMITS.items()] + ["parameter.direction in (None, 'in', 'out', 'inout')"],
+         raises={'AssertionError': 'True', 'KeyError': 'True', 'ValueError': 'True'},
+         modifies=['*.skip', '*.introspectable', '*.doc', '*.doc_position', '*.version', '*.version_doc', '*.deprecated',
+                   '*.deprecated_doc', '*.stability', '*.stability_doc', '*.attributes'],
+         ensures=dict([('C07.roundtrip.param.%s' % k, '%s == %s' % (v.replace('parameter', 'result'), v)) for k, v in EMITS.items()]
+                      + [('C07.roundtrip.param.model.direction', "result.direction == (parameter.direction if parameter.direction is not None else 'in')"),
+                         ('C07.roundtrip.param.model.optional', "result.optional == bool(parameter.optional)")]))
